@@ -1,6 +1,6 @@
 (* C13 -- Loop prevention and the TTL hop limit are enforced.
    This file contains only statements; every proof is `exact <lemma>` from Proofs/. *)
-From RSP Require Import Base Consts Ttl Spec_C13 Ttl_proofs.
+From RSP Require Import Base Consts Ttl Spec_C13 Ttl_proofs Ttlv_proofs.
 Local Open Scope N_scope.
 
 (* For every byte string of every length: decrement by exactly one as an unsigned big-endian
@@ -20,11 +20,39 @@ Theorem C13_only_ttl_plain : forall t0 attrs, wf_attrs attrs = true ->
 Proof. exact checkttl_plain_spec. Qed.
 Print Assumptions C13_only_ttl_plain.
 
+(* vendor form (the default TTLAttribute 27262:1).  vsa vb subs tr = a Vendor-Specific attribute made of the four
+   vendor octets vb, the sub-attributes subs (type, value) each encoded type/length/value, and at most one stray
+   octet tr.  The first attribute of the TTL vendor carrying the TTL sub-type has its FIRST such sub-attribute
+   decremented in place -- whatever its length (0 included), wherever it stands among the other sub-attributes --
+   the verdict is decttl's, and nothing else changes. *)
+Theorem C13_vendor_ttl : forall t0 t1 vb subs1 v subs2 tr post,
+  length vb = 4%nat -> be_value vb = t0 -> wf_bytes v = true -> (length tr <= 1)%nat ->
+  forallb sub_ok (subs1 ++ (t1, v) :: subs2) = true ->
+  forallb (fun p => negb (fst p =? t1)) subs1 = true ->
+  forall pre, forallb (other_vendor t0) pre = true ->
+  checkttl_vendor t0 t1 (pre ++ vsa vb (subs1 ++ (t1, v) :: subs2) tr :: post) =
+  (fst (decttl v), pre ++ vsa vb (subs1 ++ (t1, snd (decttl v)) :: subs2) tr :: post).
+Proof. exact checkttl_vendor_spec. Qed.
+Print Assumptions C13_vendor_ttl.
+
+(* no attribute of the TTL vendor: "no TTL", nothing changes *)
+Theorem C13_vendor_none : forall t0 t1 attrs, forallb (other_vendor t0) attrs = true ->
+  checkttl_vendor t0 t1 attrs = (ttl_none, attrs).
+Proof. exact checkttl_vendor_none. Qed.
+Print Assumptions C13_vendor_none.
+
+(* non-vacuity: a zero-length TTL as last sub-attribute is found and means "exceeded" *)
+Example C13_vendor_example :
+  checkttl_vendor 27262 1 [mkTlv 1 [97]; vsa [0; 0; 106; 126] [(2, [5]); (1, [])] []; mkTlv 4 [1; 2; 3; 4]] =
+  (0, [mkTlv 1 [97]; vsa [0; 0; 106; 126] [(2, [5]); (1, [])] []; mkTlv 4 [1; 2; 3; 4]]) /\
+  fst (checkttl_vendor 27262 1 [vsa [0; 0; 106; 126] [(1, [0; 0; 0; 2]); (1, [])] [9]]) = 1.
+Proof. vm_compute. split; reflexivity. Qed.
+
 (* non-vacuity *)
 Example C13_dec_example : decttl [1; 0] = (1, [0; 255]) /\ decttl [0; 1] = (0, [0; 0]) /\ decttl [] = (0, []).
 Proof. vm_compute. repeat split. Qed.
 
-From RSP Require Import Proxy Slots_proofs Dup_proofs Reply_proofs Forward_proofs.
+From RSP Require Import Crypt Packet Rewrite Choose Proxy Slots_proofs Dup_proofs Reply_proofs Forward_proofs.
 Local Open Scope N_scope.
 
 (* loop prevention through the handler: a request is never placed in the table of a server whose block name
@@ -34,3 +62,26 @@ Theorem C13_no_loop : forall md5 rx cfg fs st h c now rnd s i b,
   loop_prevented cfg (clconf_of cfg c) (srvconf_of cfg s) = false.
 Proof. exact forward_not_looped. Qed.
 Print Assumptions C13_no_loop.
+
+(* the hop limit through the handlers: a request is placed in a server table, a reply passed on to the client,
+   only if the TTL found (after the peer's rewriteIn) is absent or non-zero after the decrement *)
+Theorem C13_request_ttl : forall md5 rx cfg fs st h c now rnd s i b,
+  In (OEnq s i b) (snd (radsrv md5 rx cfg fs st h c now rnd)) ->
+  exists r0 msg a1 ttlres a2,
+    get_rq st h = Some r0 /\
+    buf2radmsg md5 (match rq_buf r0 with Some x => x | None => [] end) (cc_secret (clconf_of cfg c)) None = Some msg /\
+    dorewrite rx (m_attrs msg) (cc_rwin (clconf_of cfg c)) = Some a1 /\
+    checkttl (o_ttl0 (cf_opt cfg)) (o_ttl1 (cf_opt cfg)) a1 = (ttlres, a2) /\ ttlres <> 0.
+Proof. exact forward_ttl_alive. Qed.
+Print Assumptions C13_request_ttl.
+
+Theorem C13_reply_ttl : forall md5 rx cfg fs st s buf now rnd c p,
+  In (OReply c p) (snd (replyh md5 rx cfg fs st s buf now rnd)) ->
+  (exists h r, slot_of st s (nth 1 buf 0) = Some h /\ get_rq st h = Some r /\ rq_replybuf r = Some p) \/
+  exists h r msg a1 ttlres a2,
+    slot_of st s (nth 1 buf 0) = Some h /\ get_rq st h = Some r /\
+    buf2radmsg md5 buf (sc_secret (srvconf_of cfg s)) (match rq_msg r with Some m => Some (m_auth m) | None => None end) = Some msg /\
+    dorewrite rx (m_attrs msg) (sc_rwin (srvconf_of cfg s)) = Some a1 /\
+    checkttl (o_ttl0 (cf_opt cfg)) (o_ttl1 (cf_opt cfg)) a1 = (ttlres, a2) /\ ttlres <> 0.
+Proof. exact reply_ttl_alive. Qed.
+Print Assumptions C13_reply_ttl.
